@@ -47,6 +47,43 @@ def _is_log_stmt(st):
     return False
 
 
+class Bools(list):
+    """Stand-in for a numpy boolean array (what `np.isfinite(v)` or `v == w` give): a list with .all() / .any()."""
+    def all(self):
+        return all(self)
+
+    def any(self):
+        return any(self)
+
+
+class Vec(tuple):
+    """Stand-in for a small numpy vector: == and != compare element by element."""
+    def __eq__(self, other):
+        if isinstance(other, (tuple, list)) and len(other) == len(self):
+            return Bools(a == b for a, b in zip(self, other))
+        return False
+
+    def __ne__(self, other):
+        if isinstance(other, (tuple, list)) and len(other) == len(self):
+            return Bools(a != b for a, b in zip(self, other))
+        return True
+
+    __hash__ = tuple.__hash__
+
+
+def _np_all(x):
+    return bool(x) if isinstance(x, (bool, int, float)) or x is None else all(x)
+
+
+def _np_any(x):
+    return bool(x) if isinstance(x, (bool, int, float)) or x is None else any(x)
+
+
+def _np_isfinite(p):
+    import math
+    return math.isfinite(p) if isinstance(p, (int, float)) else Bools(math.isfinite(x) for x in p)
+
+
 def _binop(op, a, b):
     if isinstance(op, ast.Add):
         return a + b
@@ -74,9 +111,7 @@ BUILTINS = {'sign': sign, 'abs': abs, 'len': len, 'min': min, 'max': max, 'int':
             'itertools.product': lambda *xs: list(__import__('itertools').product(*xs)), 'itertools.count': lambda start=0: list(range(start, start + 60)),
             'iter': iter, 'next': next, 'getattr': getattr, 'hasattr': hasattr, 'defaultdict': __import__('collections').defaultdict, 'collections.defaultdict': __import__('collections').defaultdict,
             'string.ascii_letters': __import__('string').ascii_letters, 'ascii_letters': __import__('string').ascii_letters,
-            'np.all': lambda x: bool(x) if isinstance(x, (bool, int, float)) or x is None else all(x), 'numpy.all': lambda x: bool(x) if isinstance(x, (bool, int, float)) or x is None else all(x),
-            'np.isfinite': lambda p: __import__('math').isfinite(p) if isinstance(p, (int, float)) else [__import__('math').isfinite(x) for x in p],
-            'numpy.isfinite': lambda p: __import__('math').isfinite(p) if isinstance(p, (int, float)) else [__import__('math').isfinite(x) for x in p]}
+            'np.all': _np_all, 'numpy.all': _np_all, 'np.any': _np_any, 'numpy.any': _np_any, 'np.isfinite': _np_isfinite, 'numpy.isfinite': _np_isfinite}
 
 CMP = {ast.Eq: lambda a, b: a == b, ast.NotEq: lambda a, b: a != b, ast.Lt: lambda a, b: a < b, ast.LtE: lambda a, b: a <= b,
        ast.Gt: lambda a, b: a > b, ast.GtE: lambda a, b: a >= b, ast.In: lambda a, b: a in b, ast.NotIn: lambda a, b: a not in b,
@@ -186,7 +221,10 @@ def ev(node, env):
             r = ev(right, env)
             if type(op) not in CMP:
                 raise Unsupported('comparison ' + type(op).__name__)
-            if not CMP[type(op)](left, r):
+            res = CMP[type(op)](left, r)
+            if isinstance(res, Bools) and len(node.ops) == 1:
+                return res            # element-wise comparison of two vectors
+            if not res:
                 return False
             left = r
         return True
@@ -220,6 +258,8 @@ def ev(node, env):
             recv_m = ev(node.func.value, env)
         except Unsupported:
             recv_m = None
+        if isinstance(recv_m, Bools) and node.func.attr in ('all', 'any') and not node.args:
+            return getattr(recv_m, node.func.attr)()
         if isinstance(recv_m, Model):
             return getattr(recv_m, node.func.attr)(*[ev(a, env) for a in node.args], **{k.arg: ev(k.value, env) for k in node.keywords if k.arg})
         if isinstance(recv_m, str) and node.func.attr == 'format':
